@@ -47,9 +47,27 @@ pub enum Step {
     NewRoom { who: usize, room: usize, admins: Vec<usize>, groups: Vec<GroupSpec>, dt: i64 },
     AddAdmin { who: usize, room: usize, key: usize, enabled: bool, dt: i64 },
     AddGroup { who: usize, room: usize, spec: GroupSpec, dt: i64 },
-    AddUser { who: usize, room: usize, group: usize, key: usize, enabled: bool, dt: i64 },
+    AddUser {
+        who: usize,
+        room: usize,
+        group: usize,
+        key: usize,
+        enabled: bool,
+        dt: i64,
+        /// no barrier after this change: the next change is made by someone who has not seen it (concurrent changes)
+        #[serde(default)]
+        nb: bool,
+    },
     AddUserAdmin { who: usize, room: usize, group: usize, key: usize, enabled: bool, dt: i64 },
-    AddRight { who: usize, room: usize, group: usize, right: RightSpec, dt: i64 },
+    AddRight {
+        who: usize,
+        room: usize,
+        group: usize,
+        right: RightSpec,
+        dt: i64,
+        #[serde(default)]
+        nb: bool,
+    },
     Create { who: usize, row: usize, room: usize, ent: usize, dt: i64 },
     Nested { who: usize, row: usize, room: usize, dt: i64 },
     Update { who: usize, row: usize, dt: i64 },
@@ -185,6 +203,7 @@ pub fn generate(seed: u64, property: &str, thorough: bool) -> Trace {
     let mut steps = vec![];
     let n_rooms = 1 + rc.usize(2);
     let mut groups_in_room: Vec<usize> = vec![];
+    let mut admins_of_room: Vec<Vec<usize>> = vec![];
     // rooms first
     for room in 0..n_rooms {
         let who = rw.usize(nodes);
@@ -196,6 +215,7 @@ pub fn generate(seed: u64, property: &str, thorough: bool) -> Trace {
         let ng = 1 + rw.usize(2);
         let groups: Vec<GroupSpec> = (0..ng).map(|_| gen_group(&mut rw, nodes)).collect();
         groups_in_room.push(ng);
+        admins_of_room.push(admins.clone());
         steps.push(Step::NewRoom { who, room, admins, groups, dt: 20 });
     }
     let max_steps = if thorough { 25 + rw.usize(30) } else { 12 + rw.usize(20) };
@@ -214,13 +234,32 @@ pub fn generate(seed: u64, property: &str, thorough: bool) -> Trace {
         } else {
             [4, 3, 8, 4, 8, 16, 6, 14, 8, 8, 6, 6, 3, 2, 3]
         };
+        // two admins change the same group without having seen each other's change, then everybody synchronises
+        if admins_of_room[room].len() >= 2 && rw.chance(if c10 { 1 } else { 0 }, 5) {
+            let a = admins_of_room[room][0];
+            let b = admins_of_room[room][1];
+            let (x, y) = if rw.chance(1, 2) { (a, b) } else { (b, a) };
+            let group = rw.usize(groups_in_room[room]);
+            let right = RightSpec { ent: rw.usize(RIGHT_ENTS.len()), own: rw.chance(1, 2), all: rw.chance(1, 3) };
+            if rw.chance(1, 2) {
+                steps.push(Step::AddRight { who: x, room, group, right, dt: dt_def, nb: true });
+                steps.push(Step::AddUser { who: y, room, group, key: rw.usize(nodes), enabled: rw.chance(1, 2), dt: 20 + rw.range(0, 2000), nb: false });
+            } else {
+                steps.push(Step::AddUser { who: x, room, group, key: rw.usize(nodes), enabled: rw.chance(1, 2), dt: dt_def, nb: true });
+                steps.push(Step::AddRight { who: y, room, group, right, dt: 20 + rw.range(0, 2000), nb: false });
+            }
+            steps.push(Step::Grid);
+            steps.push(Step::Restart { node: rw.usize(nodes) });
+            steps.push(Step::Grid);
+            continue;
+        }
         match rw.weighted(&w) {
             0 => steps.push(Step::AddAdmin { who, room, key: rw.usize(nodes), enabled: rw.chance(2, 3), dt: dt_def }),
             1 => {
                 steps.push(Step::AddGroup { who, room, spec: gen_group(&mut rw, nodes), dt: dt_def });
                 groups_in_room[room] += 1;
             }
-            2 => steps.push(Step::AddUser { who, room, group: rw.usize(groups_in_room[room]), key: rw.usize(nodes), enabled: rw.chance(1, 2), dt: dt_def }),
+            2 => steps.push(Step::AddUser { who, room, group: rw.usize(groups_in_room[room]), key: rw.usize(nodes), enabled: rw.chance(1, 2), dt: dt_def, nb: false }),
             3 => steps.push(Step::AddUserAdmin { who, room, group: rw.usize(groups_in_room[room]), key: rw.usize(nodes), enabled: rw.chance(2, 3), dt: dt_def }),
             4 => {
                 let all = rw.chance(1, 3);
@@ -230,6 +269,7 @@ pub fn generate(seed: u64, property: &str, thorough: bool) -> Trace {
                     group: rw.usize(groups_in_room[room]),
                     right: RightSpec { ent: rw.usize(RIGHT_ENTS.len()), own: rw.chance(1, 2), all },
                     dt: dt_def,
+                    nb: false,
                 });
             }
             5 => {
@@ -294,7 +334,7 @@ pub fn directed(property: &str) -> Vec<Trace> {
                 vec![
                     Step::NewRoom { who: 0, room: 0, admins: vec![0], groups: vec![own_only(vec![1])], dt: 20 },
                     Step::Create { who: 1, row: 0, room: 0, ent: 0, dt: DAY_MS },
-                    Step::AddRight { who: 0, room: 0, group: 0, right: RightSpec { ent: 0, own: false, all: false }, dt: 1000 },
+                    Step::AddRight { who: 0, room: 0, group: 0, right: RightSpec { ent: 0, own: false, all: false }, dt: 1000, nb: false },
                     Step::Update { who: 1, row: 0, dt: DAY_MS },
                 ],
             ));
@@ -315,8 +355,8 @@ pub fn directed(property: &str) -> Vec<Trace> {
                 3,
                 vec![
                     Step::NewRoom { who: 0, room: 0, admins: vec![0], groups: vec![GroupSpec { users: vec![2], user_admins: vec![1], rights: vec![RightSpec { ent: 0, own: true, all: false }] }], dt: 20 },
-                    Step::AddUser { who: 2, room: 0, group: 0, key: 2, enabled: false, dt: 1000 },
-                    Step::AddUser { who: 1, room: 0, group: 0, key: 2, enabled: false, dt: 1000 },
+                    Step::AddUser { who: 2, room: 0, group: 0, key: 2, enabled: false, dt: 1000, nb: false },
+                    Step::AddUser { who: 1, room: 0, group: 0, key: 2, enabled: false, dt: 1000, nb: false },
                 ],
             ));
         }
@@ -326,8 +366,8 @@ pub fn directed(property: &str) -> Vec<Trace> {
                 2,
                 vec![
                     Step::NewRoom { who: 0, room: 0, admins: vec![0], groups: vec![own_only(vec![1])], dt: 20 },
-                    Step::AddUser { who: 0, room: 0, group: 0, key: 1, enabled: false, dt: 1000 },
-                    Step::AddUser { who: 0, room: 0, group: 0, key: 1, enabled: true, dt: 1000 },
+                    Step::AddUser { who: 0, room: 0, group: 0, key: 1, enabled: false, dt: 1000, nb: false },
+                    Step::AddUser { who: 0, room: 0, group: 0, key: 1, enabled: true, dt: 1000, nb: false },
                     Step::Grid,
                     Step::Restart { node: 0 },
                     Step::Grid,
@@ -346,18 +386,35 @@ pub fn directed(property: &str) -> Vec<Trace> {
                 ],
             ));
             out.push(mk(
+                "C10 two admins change the same group without seeing each other, merge on import, restart of the importer",
+                3,
+                vec![
+                    Step::NewRoom { who: 0, room: 0, admins: vec![0, 1], groups: vec![own_only(vec![2])], dt: 20 },
+                    Step::AddRight { who: 0, room: 0, group: 0, right: RightSpec { ent: 1, own: true, all: true }, dt: 1000, nb: true },
+                    Step::AddUser { who: 1, room: 0, group: 0, key: 2, enabled: false, dt: 1000, nb: false },
+                    Step::Grid,
+                    Step::Restart { node: 1 },
+                    Step::Grid,
+                    Step::Restart { node: 0 },
+                    Step::Grid,
+                    Step::Restart { node: 2 },
+                    Step::Grid,
+                ],
+            ));
+            out.push(mk(
                 "C10 rights replaced over time and an admin disabled, then restart of the importer",
                 2,
                 vec![
                     Step::NewRoom { who: 0, room: 0, admins: vec![0, 1], groups: vec![own_only(vec![1])], dt: 20 },
-                    Step::AddRight { who: 0, room: 0, group: 0, right: RightSpec { ent: 0, own: false, all: false }, dt: DAY_MS },
-                    Step::AddRight { who: 0, room: 0, group: 0, right: RightSpec { ent: 3, own: true, all: false }, dt: DAY_MS },
+                    Step::AddRight { who: 0, room: 0, group: 0, right: RightSpec { ent: 0, own: false, all: false }, dt: DAY_MS, nb: false },
+                    Step::AddRight { who: 0, room: 0, group: 0, right: RightSpec { ent: 3, own: true, all: false }, dt: DAY_MS, nb: false },
                     Step::AddAdmin { who: 0, room: 0, key: 1, enabled: false, dt: 1000 },
                     Step::Restart { node: 1 },
                     Step::Grid,
                 ],
             ));
         }
+        "C10x" => {}
         "C12" => {
             out.push(mk(
                 "C12 reference deletion on a source row last written by someone else",
@@ -640,7 +697,8 @@ fn exec_step(c: &mut Ctx, st: &Step) -> Result<(), String> {
                 after_def_change(c)?;
             }
         }
-        Step::AddUser { who, room, group, key, enabled, dt } | Step::AddUserAdmin { who, room, group, key, enabled, dt } => {
+        Step::AddUser { who, room, group, key, enabled, dt, .. } | Step::AddUserAdmin { who, room, group, key, enabled, dt } => {
+            let nb = matches!(st, Step::AddUser { nb: true, .. });
             let (who, key) = (*who % n, *key % n);
             let is_ua = matches!(st, Step::AddUserAdmin { .. });
             let Some(rr) = c.rooms.get(*room).cloned().flatten() else { return Ok(()) };
@@ -671,11 +729,15 @@ fn exec_step(c: &mut Ctx, st: &Step) -> Result<(), String> {
                     g.users.entry(key).or_default().push(Entry { date, enabled: *enabled });
                 }
                 rm.dates.push(date);
-                barrier(c)?;
-                after_def_change(c)?;
+                if nb {
+                    c.w.fault("concurrent_definition_change");
+                } else {
+                    barrier(c)?;
+                    after_def_change(c)?;
+                }
             }
         }
-        Step::AddRight { who, room, group, right, dt } => {
+        Step::AddRight { who, room, group, right, dt, nb } => {
             let who = *who % n;
             let Some(rr) = c.rooms.get(*room).cloned().flatten() else { return Ok(()) };
             if rr.groups.is_empty() {
@@ -699,8 +761,12 @@ fn exec_step(c: &mut Ctx, st: &Step) -> Result<(), String> {
                 let rm = c.rooms[*room].as_mut().unwrap();
                 rm.groups[gi].rights.entry(RIGHT_ENTS[right.ent % 4].to_string()).or_default().push(RightEntry { date, own: right.own, all: right.all });
                 rm.dates.push(date);
-                barrier(c)?;
-                after_def_change(c)?;
+                if *nb {
+                    c.w.fault("concurrent_definition_change");
+                } else {
+                    barrier(c)?;
+                    after_def_change(c)?;
+                }
             }
         }
         Step::Create { who, row, room, ent, dt } => {
@@ -887,6 +953,7 @@ fn exec_step(c: &mut Ctx, st: &Step) -> Result<(), String> {
         }
         Step::Restart { node } => {
             let node = *node % n;
+            let before = if has(&c.cfg, "C10") { Some(grid_snapshot(c, node)?) } else { None };
             let left = c.w.nodes[node].stop();
             if left != 0 {
                 return Err(format!("{left} threads left after stop"));
@@ -900,6 +967,16 @@ fn exec_step(c: &mut Ctx, st: &Step) -> Result<(), String> {
                 return Err("node cannot restart".into());
             }
             if has(&c.cfg, "C10") {
+                // reloaded from storage must mean the same as live, whatever the history says
+                let after = grid_snapshot(c, node)?;
+                if let Some(before) = before {
+                    if let Some(((label, b), (_, a))) = before.iter().zip(after.iter()).find(|(x, y)| x != y) {
+                        let shape = label.split(' ').nth(1).unwrap_or("?").split('(').next().unwrap_or("?").to_string();
+                        c.w.violation("C10", &format!("decision-differs/live-vs-restart:{shape}"), format!("n{node}: {label} was {b} before the restart and is {a} after it"));
+                    } else if before.len() != after.len() {
+                        c.w.violation("C10", "decision-differs/live-vs-restart:room-set", format!("n{node}: {} decisions before the restart, {} after", before.len(), after.len()));
+                    }
+                }
                 grid_check(c, Some(node), "after-restart")?;
             }
         }
@@ -1056,7 +1133,51 @@ fn offer_refused_create(c: &mut Ctx, who: usize, room: usize, ent: usize) -> Res
 // ---------------------------------------------------------------------------------------
 // C10: decision grid of the in-memory rooms against R
 // ---------------------------------------------------------------------------------------
+/// every decision of the in-memory rooms of one node, as a list of labelled booleans
+fn grid_snapshot(c: &mut Ctx, node: usize) -> Result<Vec<(String, bool)>, String> {
+    let n = c.cfg.nodes;
+    let keys: Vec<Vec<u8>> = (0..n).map(|k| c.w.nodes[k].vk.clone()).collect();
+    let mut out = vec![];
+    for r in 0..c.rooms.len() {
+        let Some(rr) = c.rooms[r].clone() else { continue };
+        let mut dates: Vec<i64> = vec![];
+        for d in &rr.dates {
+            dates.extend([d - 1, *d, d + 1]);
+        }
+        dates.push(c.now + DAY_MS);
+        dates.sort();
+        dates.dedup();
+        let auth = c.w.nodes[node].dbh().auth.clone();
+        let uid = rr.uid;
+        let room = c.w.nodes[node]
+            .run(async move {
+                let (tx, rx) = tokio::sync::oneshot::channel();
+                let _ = auth.send(dv::AuthorisationMessage::VerifGetRoom(uid, tx)).await;
+                rx.await.ok().flatten()
+            })
+            .map_err(|e| format!("{e:?}"))?;
+        let Some(room) = room else {
+            out.push((format!("room{r} known"), false));
+            continue;
+        };
+        out.push((format!("room{r} known"), true));
+        for (k, key) in keys.iter().enumerate() {
+            for d in &dates {
+                out.push((format!("room{r} admin(n{k},{d})"), room.is_admin(key, *d)));
+                out.push((format!("room{r} membership(n{k},{d})"), room.is_user_valid_at(key, *d)));
+                for e in ["Person", "Pet", "Thing", "Unknown"] {
+                    out.push((format!("room{r} own-rows-right(n{k},{e},{d})"), room.can(key, e, *d, &RightType::MutateSelf)));
+                    out.push((format!("room{r} all-rows-right(n{k},{e},{d})"), room.can(key, e, *d, &RightType::MutateAll)));
+                }
+            }
+        }
+    }
+    Ok(out)
+}
+
 fn grid_check(c: &mut Ctx, only: Option<usize>, path: &str) -> Result<(), String> {
+    // concurrent definition changes are not always imported (known finding): the comparison with the history is labelled
+    let path = if c.w.report.faults.contains_key("concurrent_definition_change") { "after-concurrent-changes" } else { path };
     let n = c.cfg.nodes;
     let keys: Vec<Vec<u8>> = (0..n).map(|k| c.w.nodes[k].vk.clone()).collect();
     for r in 0..c.rooms.len() {
